@@ -19,7 +19,8 @@ META = {
                   'pytorch_wavelets.utils.reflect', 'pytorch_wavelets.dwt.lowlevel.prep_filt_afb1d', 'pytorch_wavelets.dwt.lowlevel.prep_filt_afb2d'],
     'explanation': 'C01 (plus an integer lemma, unbounded in x: the index helper utils.reflect, cut out of the source and run on a symbolic integer, equals the half-sample symmetric index for every integer x and every length l <= 64). For each configuration the forward DWT is run once on a tensor of input atoms; each output '
                    'coefficient minus the PyWavelets basis-response row is a linear form d_k; query: exists x in [-1,1]^n with |d_k(x)| > tau.',
-    'bounds': {
+    'bounds': {'added_families': ['user-supplied banks custom:rot2 (2-tap, not Haar), custom:asym4 (4 taps, no symmetry): 1-D N in {5,8,12}, 2-D 5x6, 8x6 (C=2)', 'per-axis wavelet pairs db2|db3, bior1.3|db2, haar|db2 on 12x13 / 13x12', 'calling contexts nograd / reqgrad / transposed / chlast on db2 and db2|db3 configurations', 'filter arrays zeroed by the caller after construction (dwtlib.scrub)'],
+               
         'quick': {'1d': {'wavelets': QUICK_WAVES, 'modes': D.MODES, 'J': [1, 2, 3], 'N': '2..L+3, 2L, 2L+1 (cap 40), seed-rotated half',
                          'batch': '(1,1); (2,3) on a slice'},
                   '2d': {'wavelets': QUICK_WAVES_2D, 'modes': D.MODES, 'J': [1, 2], 'shapes': SHAPES_2D},
